@@ -17,13 +17,15 @@ META = {
                 "expected booleans. The driver realises every case with real ed25519 keys and real signed PaymentQuotes, calls the real "
                 "check_is_signed_by_claimed_peer / verify_for / has_expired / historical_verify / hash, and logs the abstract projection of "
                 "the concrete quote (table look-up on concrete bytes; signatures by provenance); the TLA+ clause operators judge every call. "
-                "All quotes cannot be enumerated: the mutation lattice is exhaustive, concrete values are sampled.",
+                "All quotes cannot be enumerated: the mutation lattice is exhaustive, concrete values are sampled. The history rule is also followed into a real node "
+                "(QuoteHistory.tla): sequences of quotes of two peers, TLC-generated and random, are handed to the real QuoteVerification handler of a SwarmDriver and "
+                "the retained quote / recorded issue after every step is judged (inconsistent with the retained quote => issue on record, never retained; the reference never moves back).",
         "note": "trusted: TLC; ed25519 (ideal-signature assumption: a signature verifies only for the key and message it was made with); the driver's "
                 "value tables (abstraction function); the wall clock moving forward by < 2 s during one call",
         "design_ref": "5 Area Quote",
     }
 }
-PACKAGES = ["drv_light"]
+PACKAGES = ["drv_light", "drv_net"]
 CHUNK = 150000
 
 # genuine defects of the unchanged tree, matched narrowly (none at present)
@@ -56,10 +58,75 @@ def _key(e):
     return json.dumps(x, sort_keys=True)
 
 
+def _scn_lines(r, cap):
+    seen, out = set(), []
+    for ln in r.output.splitlines():
+        if ln.startswith('<<"SCN", "'):
+            body = ln[len('<<"SCN", '):]
+            txt = json.loads(body[:body.rindex('>>')].strip())
+            if txt not in seen:
+                seen.add(txt)
+                out.append(json.loads(txt))
+                if len(out) >= cap:
+                    break
+    return out
+
+
+def history_node(v, w, thorough, scenario=None):
+    """The history rule as a node applies it: per-peer retained quote in a real SwarmDriver (QuoteVerification handler)."""
+    scn_path = os.path.join(w, "hist-scenarios.ndjson")
+    if scenario is not None:
+        write_ndjson(scn_path, [scenario])
+        nrandom = 0
+    else:
+        mc = tlc("quote", "MCQuoteHistory", "MCQuoteHistory.cfg", w, workers=8, timeout=1800)
+        v.add_model(mc)
+        if mc.violated:
+            v.violation("model:" + mc.violated, "the model of the node-side quote history falsifies a clause", {"area": "quote", "tlc": mc.error_text[:6000]})
+        sim = tlc("quote", "MCQuoteHistory", "MCQuoteHistory_sim.cfg", w, workers=1, simulate="num=%d" % (2000 if thorough else 150), depth=8,
+                  coverage=False, timeout=1800, extra=["-seed", str(seed())])
+        if sim.violated:
+            v.violation("model:" + sim.violated, "clause falsified on a simulated behaviour of the quote-history model", {"area": "quote", "tlc": sim.error_text[:6000]})
+        write_ndjson(scn_path, _scn_lines(sim, 40000 if thorough else 3000))
+        nrandom = 20000 if thorough else 1500
+    trace = os.path.join(w, "hist-trace.ndjson")
+    run_driver("drv_quotehist", ["--scenarios", scn_path, "--random", nrandom, "--out", trace, "--work", w], w, timeout=3000)
+    rep = validate_trace("quote", "QuoteHistoryTrace", "QuoteHistoryTrace.cfg", trace, w, timeout=3000, heap="6g")
+    events = read_ndjson(trace)
+    starts, cur = {}, 0
+    for i, e in enumerate(events):
+        if e["ev"] == "Reset":
+            cur = i
+        starts[i] = cur
+
+    def scn_of(line):
+        return [{"p": e["p"], "q": e["q"]} for e in events[starts[line - 1] + 1:line]]
+
+    for x in rep["violations"]:
+        e = events[x["line"] - 1]
+        if x["clause"] == "Malformed":
+            raise ToolError("malformed quote-history trace line %d: %s" % (x["line"], e))
+        v.violation(x["clause"], "QuoteVerification of %s for peer %s on a real node: retained before %s, after %s, issue on record: %s" % (
+            e["q"], e["p"], e["before"], e["after"], e["issue"]), {"area": "quote", "hist_scenario": scn_of(x["line"]), "event": e})
+    for ln in rep.get("drift", [])[:20]:
+        e = events[ln - 1]
+        v.drift.append({"what": "quote-history model and node disagree", "event": json.dumps(e)[:300]})
+    steps = [e for e in events if e["ev"] == "Quote"]
+    v.cov["history_node_steps"] = len(steps)
+    v.cov["history_node_runs"] = sum(1 for e in events if e["ev"] == "Reset")
+    v.cov["history_node_flagged_steps"] = sum(1 for e in steps if e["issue"])
+    v.cov["history_node_replaced_steps"] = sum(1 for e in steps if e["after"] != e["before"] and e["before"]["ts"] >= 0)
+    return len(steps)
+
+
 def run(prop, tier, replay=None):
     v = Verdict(prop, tier, replaying=replay is not None)
     w = workdir(prop)
     thorough = tier == "thorough"
+    if replay and replay.get("hist_scenario") is not None:
+        build(PACKAGES)
+        history_node(v, w, False, scenario=replay["hist_scenario"])
+        return v.finish()
     env_seed = None
     sections = "cases,class,random"
     if replay:
@@ -110,8 +177,11 @@ def run(prop, tier, replay=None):
         for x in rep.get("notes", []):
             v.cov.setdefault("notes", {})
             v.cov["notes"][x["note"]] = v.cov["notes"].get(x["note"], 0) + 1
+    nhist = 0
+    if not replay:
+        nhist = history_node(v, w, thorough)
     seen = set(_key(e) for e in events)
-    v.cov["evaluations"] = len(events)
+    v.cov["evaluations"] = len(events) + nhist
     v.cov["distinct_nontrivial"] = len(seen)
     v.cov["traces_validated_against_impl"] = nparts
     v.cov["events_validated"] = len(events)
@@ -144,7 +214,9 @@ def run(prop, tier, replay=None):
         "time has whole-second granularity (I4): a sub-second change of the timestamp is not an alteration; expiry is tested >= 2 s from both edges "
         "on the side the passing of time approaches, each call completes within 1 s of sampling now (retried otherwise)",
         "historical_verify is called on pairs; 'from the same node' is the caller's keying of its history by peer id (SwarmDriver::verify_peer_quote), "
-        "which this driver does not reach; pairs of different nodes and pairs with equal timestamps are observations only",
+        "reached by the node-level run (drv_quotehist: the real QuoteVerification handler, judged against the retained quote); a node retains only the "
+        "newest consistent quote per peer, so a quote is compared with that one and not with every earlier quote; pairs of different nodes and pairs "
+        "with equal timestamps are observations only",
         "the statement gives only-if directions for quote and proof verification: an intact quote/proof that is rejected is drift, not a violation",
         "hash(): equal hashes are required exactly for equal (signed fields, key bytes, signature bytes); the concatenation without length prefix "
         "lets a byte move between key and signature without changing the hash (reported as note HashKeySignatureBoundaryAlias; such a quote never verifies)",
